@@ -16,7 +16,7 @@ PROPS = {
         ],
         "units": [
             regress("C01"),
-            {"run": "^TestC01$", "quick": 6000, "thorough": 40000},
+            {"run": "^TestC01$", "quick": 20000, "thorough": 200000},
         ],
     },
     "C02": {
@@ -28,7 +28,7 @@ PROPS = {
         "units": [
             regress("C02"),
             {"run": "^TestRefSelf$", "quick": 300, "thorough": 3000, "single": True},
-            {"run": "^TestC02$", "quick": 6000, "thorough": 40000},
+            {"run": "^TestC02$", "quick": 20000, "thorough": 200000},
         ],
     },
     "C15": {
@@ -40,7 +40,7 @@ PROPS = {
         "units": [
             regress("C15"),
             {"run": "^TestC15Recursive$", "quick": 1, "thorough": 1, "single": True, "rapid": False},
-            {"run": "^TestC15$", "quick": 10000, "thorough": 60000},
+            {"run": "^TestC15$", "quick": 30000, "thorough": 300000},
         ],
     },
     "C03": {
@@ -53,7 +53,7 @@ PROPS = {
         "units": [
             regress("C03"),
             {"run": "^TestRefSelf$", "quick": 300, "thorough": 3000, "single": True},
-            {"run": "^TestC03$", "quick": 6000, "thorough": 30000},
+            {"run": "^TestC03$", "quick": 20000, "thorough": 200000},
         ],
     },
     "C04": {
@@ -64,7 +64,7 @@ PROPS = {
         ],
         "units": [
             regress("C04"),
-            {"run": "^TestC04$", "quick": 5000, "thorough": 30000},
+            {"run": "^TestC04$", "quick": 15000, "thorough": 150000},
         ],
     },
     "C05": {
@@ -91,7 +91,7 @@ PROPS = {
         ],
         "units": [
             regress("C06"),
-            {"run": "^TestC06$", "quick": 12000, "thorough": 120000, "timeout_quick": 900},
+            {"run": "^TestC06$", "quick": 25000, "thorough": 150000, "timeout_quick": 900},
             {"fuzz": "FuzzFile", "fuzztime": "90s", "thorough_only": True, "run": "FuzzFile"},
             {"fuzz": "FuzzBody", "fuzztime": "90s", "thorough_only": True, "run": "FuzzBody"},
             {"fuzz": "FuzzSchema", "fuzztime": "60s", "thorough_only": True, "run": "FuzzSchema"},
@@ -107,7 +107,7 @@ PROPS = {
         "units": [
             regress("C07"),
             {"run": "^TestRefSelf$", "quick": 300, "thorough": 3000, "single": True},
-            {"run": "^TestC07$", "quick": 200, "thorough": 400},
+            {"run": "^TestC07$", "quick": 400, "thorough": 2000},
         ],
     },
     "C08": {
@@ -119,7 +119,7 @@ PROPS = {
         "units": [
             regress("C08"),
             {"run": "^TestRefSelf$", "quick": 300, "thorough": 3000, "single": True},
-            {"run": "^TestC08$", "quick": 300, "thorough": 800},
+            {"run": "^TestC08$", "quick": 600, "thorough": 5000},
             {"run": "^TestC08Large$", "quick": 1, "thorough": 1, "rapid": False},
         ],
     },
@@ -131,7 +131,7 @@ PROPS = {
         ],
         "units": [
             regress("C09"),
-            {"run": "^TestC09$", "quick": 3000, "thorough": 20000},
+            {"run": "^TestC09$", "quick": 8000, "thorough": 60000},
         ],
     },
     "C16": {
@@ -143,7 +143,7 @@ PROPS = {
         ],
         "units": [
             regress("C16"),
-            {"run": "^TestC16$", "quick": 800, "thorough": 6000},
+            {"run": "^TestC16$", "quick": 2000, "thorough": 20000},
         ],
     },
     "C18": {
@@ -156,7 +156,7 @@ PROPS = {
         "units": [
             regress("C18"),
             {"run": "^TestC18Dates$", "quick": 1, "thorough": 1, "rapid": False},
-            {"run": "^TestC18$", "quick": 50000, "thorough": 600000},
+            {"run": "^TestC18$", "quick": 150000, "thorough": 1000000},
             {"fuzz": "FuzzTime", "fuzztime": "90s", "thorough_only": True, "run": "FuzzTime"},
         ],
     },
@@ -171,7 +171,7 @@ PROPS = {
         "units": [
             regress("C19"),
             {"run": "^TestC19Dates$", "quick": 1, "thorough": 1, "rapid": False},
-            {"run": "^TestC19$", "quick": 30000, "thorough": 300000},
+            {"run": "^TestC19$", "quick": 100000, "thorough": 1000000},
         ],
     },
     "C10": {
@@ -182,8 +182,8 @@ PROPS = {
         ],
         "units": [
             regress("C10"),
-            {"run": "^TestC10A$", "quick": 2000, "thorough": 15000},
-            {"run": "^TestC10B$", "quick": 2000, "thorough": 15000},
+            {"run": "^TestC10A$", "quick": 3000, "thorough": 20000},
+            {"run": "^TestC10B$", "quick": 3000, "thorough": 20000},
         ],
     },
     "C11": {
@@ -194,7 +194,7 @@ PROPS = {
         ],
         "units": [
             regress("C11"),
-            {"run": "^TestC11$", "quick": 1500, "thorough": 10000},
+            {"run": "^TestC11$", "quick": 1500, "thorough": 15000},
         ],
     },
     "C20": {
@@ -205,7 +205,7 @@ PROPS = {
         ],
         "units": [
             regress("C20"),
-            {"run": "^TestC20$", "quick": 2500, "thorough": 12000},
+            {"run": "^TestC20$", "quick": 8000, "thorough": 60000},
         ],
     },
     "C12": {
@@ -217,7 +217,7 @@ PROPS = {
         ],
         "units": [
             regress("C12"),
-            {"run": "^TestC12$", "quick": 400, "thorough": 1500, "race": True},
+            {"run": "^TestC12$", "quick": 800, "thorough": 5000, "race": True},
         ],
     },
     "C13": {
@@ -228,7 +228,7 @@ PROPS = {
         ],
         "units": [
             regress("C13"),
-            {"run": "^TestC13$", "quick": 6000, "thorough": 40000},
+            {"run": "^TestC13$", "quick": 20000, "thorough": 200000},
         ],
     },
     "C14": {
@@ -239,7 +239,7 @@ PROPS = {
         ],
         "units": [
             regress("C14"),
-            {"run": "^TestC14$", "quick": 20000, "thorough": 150000},
+            {"run": "^TestC14$", "quick": 50000, "thorough": 500000},
             {"fuzz": "FuzzSchema", "fuzztime": "90s", "thorough_only": True, "run": "FuzzSchema"},
         ],
     },
